@@ -1327,6 +1327,7 @@ func Run(r *mc.Run) {
 	verifyScenarios(r)
 	nearHashScenario(r)
 	historyScenario(r)
+	reuseScenario(r)
 }
 
 // nonPeriodic returns n bytes of a xorshift generator (no period within the lengths used here).
@@ -1652,6 +1653,8 @@ func Replay(scenario string, raw json.RawMessage) []*mc.Violation {
 	switch in.Op {
 	case "history":
 		v, _ = checkHistory(scenario, in)
+	case "reuse":
+		v, _ = checkReuse(scenario, in)
 	case "verify":
 		v, _ = checkVerify(scenario, in)
 	case "unknown":
